@@ -9,14 +9,14 @@
 (* two languages) must find both unchanged.  This machine states that:      *)
 (*                                                                         *)
 (*   ops    the calls so far, [op, a] (a = argument shape)                  *)
-(*   outs   per call, where its result lives:                               *)
+(*   outs   per call, where its result lives, [k, of]:                      *)
 (*            "own"   storage of its own                                    *)
 (*            "buf"   a package-level scratch buffer (the design this       *)
 (*                    machine rules out): the buffer holds the result of    *)
 (*                    the LAST call that used it                            *)
-(*            j > 0   a view of the result of call j (cmap.Decode of an     *)
-(*                    earlier Table.Encode result); 0 = a view of bytes     *)
-(*                    owned by the caller                                   *)
+(*            "view"  a view of the result of call `of` (cmap.Decode of an  *)
+(*                    earlier Table.Encode result); of = 0: a view of       *)
+(*                    bytes owned by the caller                             *)
 (*   buf    the call whose result the scratch buffer holds now (0 = none)   *)
 (*                                                                         *)
 (* ResultsStable: no result handed out ever changes (as long as the caller  *)
@@ -51,8 +51,8 @@ Call ==
   /\ \E s \in Shapes : \E a \in 0..s[2] - 1 :
        LET me    == Len(ops) + 1
            inbuf == AllowScratchReuse /\ s[1] = "E4"
-           where == IF s[1] = "TD" THEN (IF a = 0 THEN LastTE ELSE 0)
-                    ELSE IF inbuf THEN "buf" ELSE "own"
+           where == IF s[1] = "TD" THEN [k |-> "view", of |-> IF a = 0 THEN LastTE ELSE 0]
+                    ELSE IF inbuf THEN [k |-> "buf", of |-> 0] ELSE [k |-> "own", of |-> 0]
        IN /\ ops'  = Append(ops, [op |-> s[1], a |-> a])
           /\ outs' = Append(outs, where)
           /\ buf'  = IF inbuf THEN me ELSE buf
@@ -62,15 +62,15 @@ Spec == Init /\ [][Next]_vars
 \* the value a retained result has NOW (i = unchanged, anything else = changed)
 RECURSIVE ValueNow(_)
 ValueNow(i) ==
-  IF outs[i] = "own" THEN i
-  ELSE IF outs[i] = "buf" THEN buf
-  ELSE IF outs[i] = 0 THEN i                               \* view of caller-owned bytes
-  ELSE IF ValueNow(outs[i]) = outs[i] THEN i ELSE 0        \* view of an earlier result
+  IF outs[i].k = "own" THEN i
+  ELSE IF outs[i].k = "buf" THEN buf
+  ELSE IF outs[i].of = 0 THEN i                                  \* view of caller-owned bytes
+  ELSE IF ValueNow(outs[i].of) = outs[i].of THEN i ELSE 0        \* view of an earlier result
 ResultsStable == \A i \in 1..Len(outs) : ValueNow(i) = i
 
 \* ---- the fixed inputs of the decode calls, encoded by the specification
 MapA  == << <<65, 1>>, <<66, 2>>, <<67, 5>> >>
-MapB  == << <<32, 9>>, <<33, 4>>, <<34, 8>>, <<40, 3>>, <<8364, 11>> >>
+MapB  == << <<32, 9>>, <<33, 4>>, <<34, 8>>, <<40, 6>>, <<8364, 11>> >>
 MapM  == << <<65, 1>>, <<128, 2>>, <<129, 7>>, <<200, 3>> >>           \* Mac Roman codes
 Map12 == << <<65, 1>>, <<66, 2>>, <<128512, 9>>, <<128513, 10>> >>
 Fixed ==
